@@ -346,6 +346,10 @@ func (db *RockDB) BitCountV2(key []byte, start, end int64) (int64, error) {
 				byteEnd = len(bmv)
 			}
 		}
+		if byteStart >= byteEnd {
+			// the range starts behind the bytes this segment holds
+			continue
+		}
 		total += popcountBytes(bmv[byteStart:byteEnd])
 	}
 	return total, nil
